@@ -124,6 +124,19 @@ def words_of(root, index):
     return res
 
 
+def attr_digest(root):
+    """attributes that passes set without changing the tree shape (clean_vlist, mark_infoboxes,
+    mark_short_paragraph, fix_table_colspans ...); used only to tell whether a pass did something"""
+    order, _ = nodes_preorder(root)
+    out = []
+    for n in order:
+        v = getattr(n, "vlist", None)
+        out.append((repr(sorted(v.items(), key=repr)) if isinstance(v, dict) and v else "",
+                    bool(getattr(n, "isInfobox", False)), bool(getattr(n, "short_paragraph", False)),
+                    bool(getattr(n, "force_tablesplit", False)), bool(getattr(n, "compact", False))))
+    return hash(tuple(out))
+
+
 def canon(root):
     """identity-free form of a tree (for the fixed-point test)"""
     out = []
@@ -234,6 +247,7 @@ def record(raw, lang="en", title="Verif", doc_id=0, lossless=False):
         signal.setitimer(signal.ITIMER_REAL, 0)
         signal.signal(signal.SIGALRM, old)
     prev = project(tree)
+    prev_attrs = attr_digest(tree)
     snap = dict(prev)
     snap.update({"pass": "build", "status": "ok", "stable": True, "errkey": "", "same": False})
     trace["snaps"].append(snap)
@@ -260,6 +274,10 @@ def record(raw, lang="en", title="Verif", doc_id=0, lossless=False):
             trace["truncated"] = True
             break
         same = cur == prev
+        cur_attrs = attr_digest(tree)
+        if same and cur_attrs != prev_attrs:
+            trace["changed"].append(name)          # attributes only: not part of the snapshot, but the pass acted
+        prev_attrs = cur_attrs
         snap = {"pass": name, "status": status, "stable": bool(stable), "errkey": errkey or why, "same": same}
         if not same:
             snap.update(cur)
@@ -308,6 +326,11 @@ CONSTANTS
   NDimProps = %(ndp)d
   NDimShapes = %(nds)d
   NSnips = %(nsnips)d
+  NCont = %(ncont)d
+  NBlk = %(nblk)d
+  NHost = %(nhost)d
+  NestMode = %(nestmode)d
+  NestWitness = {%(witness)s}
   NLex = %(nlex)d
   MaxLine = %(maxline)d
   MinOut = %(minout)d
@@ -337,11 +360,22 @@ CHECK_DEADLOCK TRUE
 """
 
 
-def doc_cfg(maxprod, maxwords, palette=False, free=False, variants=True, maxline=12, minout=60, ordinary=False):
+def baseline():
+    try:
+        with open(os.path.join(VERIF, "harness", "cleaner_baseline.json")) as f:
+            return json.load(f)
+    except (OSError, ValueError):
+        return {"nest_witnesses": {}, "fired": {}}
+
+
+def doc_cfg(maxprod, maxwords, palette=False, free=False, variants=True, maxline=12, minout=60, ordinary=False, nestmode=0,
+            witness=()):
     return DOC_CFG % dict(maxprod=maxprod, maxwords=maxwords, palette=str(palette).upper(), free=str(free).upper(),
                           variants=str(variants).upper(), maxline=maxline, minout=minout, ordinary=str(ordinary).upper(),
                           nattrs=len(W.ATTRS) if palette else 0, ndp=len(W.DIM_PROPS) if palette else 0, nds=len(W.DIM_SHAPES) if palette else 0, nsnips=len(W.SNIPS) if palette else 0,
-                          nlex=len(W.LEXEMES) if free else 0)
+                          nlex=len(W.LEXEMES) if free else 0, nestmode=nestmode, witness=", ".join(str(c) for c in sorted(set(witness))),
+                          ncont=len(W.NEST_CONT) if palette else 0, nblk=len(W.NEST_BLK) if palette else 0,
+                          nhost=len(W.NEST_HOST) if palette else 0)
 
 
 def generate(ctx, scale=1.0, profile="all"):
@@ -351,11 +385,11 @@ def generate(ctx, scale=1.0, profile="all"):
     per = lambda n: max(1, int(n * scale) // ctx.ncpu)             # noqa: E731  (-simulate num is per worker)
     plans = [
         # name, cfg, traces per worker, depth
-        ("clean", doc_cfg(40, 30), per(700 if quick else 7000), 45),
-        ("cleanlong", doc_cfg(70, 60, maxline=9, minout=120), per(250 if quick else 2500), 75),
-        ("palette", doc_cfg(40, 30, palette=True), per(900 if quick else 9000), 45),
+        ("clean", doc_cfg(40, 30), per(500 if quick else 7000), 45),
+        ("cleanlong", doc_cfg(70, 60, maxline=9, minout=120), per(200 if quick else 2500), 75),
+        ("palette", doc_cfg(40, 30, palette=True), per(600 if quick else 9000), 45),
         ("palettelong", doc_cfg(70, 60, palette=True, maxline=9, minout=120), per(300 if quick else 3000), 75),
-        ("free", doc_cfg(30, 20, palette=True, free=True, minout=40), per(400 if quick else 4000), 35),
+        ("free", doc_cfg(30, 20, palette=True, free=True, minout=40), per(250 if quick else 4000), 35),
     ]
     if profile == "lossless":               # C07: only the clean grammar, more of it
         plans = [("clean", doc_cfg(40, 30), per(1500 if quick else 15000), 45),
@@ -380,6 +414,25 @@ def generate(ctx, scale=1.0, profile="all"):
             inputs.append({"raw": raw, "kind": name, "doc": d,
                            "lossless": bool(d["flags"]["clean"] and d["flags"]["lossless"] and not d["flags"]["mal"])})
         gen_stats[name] = len(inputs) - n0
+    # the HTML nesting product: host( container( child ) ); quick: every container x child x position
+    # (host derived) + the recorded witness combinations of every pass; thorough: the full product
+    if profile != "lossless":
+        wit = sorted(set(c for v in baseline().get("nest_witnesses", {}).values() for c in v))
+        nplans = [("nest1", 1, ()), ("nestw", 4, wit)] if quick else [("nest3", 3, ())]
+        n0 = len(inputs)
+        for name, mode, w in nplans:
+            if mode == 4 and not w:
+                continue
+            res = tlc.run(ctx, "WikiDoc", doc_cfg(2, 3, palette=True, variants=False, maxline=100, minout=0, nestmode=mode, witness=w),
+                          name="WikiDoc_" + name, timeout=1500, heap="4g")
+            if not res.ok:
+                ctx.machinery("generator spec WikiDoc violates its own invariant (%s %s) in plan %s" % (res.kind, res.name, name))
+            for d in sorted(res.emitted, key=lambda d: json.dumps(d["out"], sort_keys=True)):
+                raw = W.concretise(d)
+                if raw not in seen:
+                    seen.add(raw)
+                    inputs.append({"raw": raw, "kind": "nest", "doc": d, "lossless": False})
+        gen_stats["nest"] = len(inputs) - n0
     # all tiny documents of the clean grammar
     res = tlc.run(ctx, "WikiDoc", doc_cfg(7 if quick else 8, 3, variants=False, maxline=100, minout=0, ordinary=True).replace(
         "MaxTables = 2", "MaxTables = 1"), name="WikiDoc_tiny", timeout=1500, heap="4g")
@@ -388,7 +441,7 @@ def generate(ctx, scale=1.0, profile="all"):
     tiny = sorted(res.emitted, key=lambda d: json.dumps(d["out"], sort_keys=True))
     random.Random(ctx.seed).shuffle(tiny)
     n0 = len(inputs)
-    for d in tiny[:int((400 if quick else 6000) * scale)]:
+    for d in tiny[:int((250 if quick else 6000) * scale)]:
         raw = W.concretise(d)
         if raw not in seen:
             seen.add(raw)
@@ -403,7 +456,7 @@ def generate(ctx, scale=1.0, profile="all"):
             n0 = len(inputs)
             for j, k in enumerate((12, 30)):
                 r = tlc.run(ctx, "WikiTokens", TOKENS_CFG % {"k": k}, name="WikiTokens_%d" % k, deadlock=False,
-                            simulate=max(1, int((250 if quick else 2500) * scale)), depth=k + 1, seed=ctx.seed * 4 + j + 1,
+                            simulate=max(1, int((180 if quick else 2500) * scale)), depth=k + 1, seed=ctx.seed * 4 + j + 1,
                             workers=1, timeout=900, heap="4g")
                 if not r.ok:
                     raise RuntimeError("WikiTokens run failed: %s %s" % (r.kind, r.name))
